@@ -550,7 +550,11 @@ def _skip_sets_record_firings(P, R, L):
         if c.bb not in L.outer["body"] or not c.name.endswith(("HashSet::insert", "HashSet::extend", "HashSet::replace", "HashSet::get_or_insert_with")):
             continue
         n += 1
-        if fn.edge_dominates(L.cond_switch, te, ("sw", "otherwise"), c.bb):
+        # behind the true edge: dominated by it, or - when the result is tested twice (`if fired { analytics } .. if fired { .. }`) -
+        # not reachable from the false edge within this iteration with the two tests kept consistent
+        behind = fn.edge_dominates(L.cond_switch, te, ("sw", "otherwise"), c.bb) or \
+            fn.dominates(L.cond_switch, c.bb) and c.bb not in A.reach_corr(fn, fe, avoid_blocks=[L.inner["header"]], assume=[(L.cond_switch, ("sw", 0))])
+        if behind:
             R.hold("d", "%s: fired_rules_global is written only after the rule's condition evaluated to true" % fn.short_name, fn=fn, line=c.line)
         else:
             R.violate("d", "skip-set-written-before-firing:%s" % fn.name,
